@@ -147,7 +147,7 @@ claim("C14", "proof",
 claim("C18", "proof",
       "Theorem parse_eq_spec: for EVERY string, UserBoundsList::from_str's model accepts exactly what an independent grammar (maximal-munch lexer + token "
       "parser + declarative bound syntax) accepts and yields the same list; plus: never panics, accepted bounds are non-zero i32 with same-sign ranges "
-      "non-decreasing, the four chained replace calls equal token-wise unescaping, no two adjacent fillers (73 theorems). Direct oracle: implementation vs "
+      "non-decreasing, the four chained replace calls equal token-wise unescaping, no two adjacent fillers (73 theorems). Machine integers (Props/BoundsLit.lean, 109 theorems): side.rs and userbounds.rs transcribed statement by statement with i32 values, checked + - * and the as-casts of the Rust text, and proved equal to the unbounded model — the i32 parser of core (both digit loops), Side::from_str, UserBounds::from_str, matches, the orderings with no hypothesis; try_into_range / unpack / complement under parts_length < 2^31 and a non-zero left side, both shown necessary by witnesses. Direct oracle: implementation vs "
       "the executed grammar on every string ≤ L symbols + random; rendering on probe records vs the executed specification.",
       TIE, "Lean 4 language-recognition theorem (scanner with look-ahead = lexer+parser, simulation proof) + bounded-exhaustive correspondence", "§4 C18")
 
